@@ -130,9 +130,26 @@ Proof.
           rewrite <- E. apply in_map; auto. }
         rewrite zsum_app, zsum_cons. cbn [fst snd]. rewrite Z.eqb_refl. cbn [andb].
         rewrite (zsum_ext _ _ (fun _ => 0) t1), zsum_zero.
-        2: { intros jc Hjc. destruct (Z.eqb_spec (fst jc) e); cbn [andb]; auto. exfalso. eapply N1; eauto. }
+        2: { intros [j' c'] Hjc. cbn [fst snd]. assert (j' =? e = false) as -> by (apply Z.eqb_neq; apply (N1 (j', c')); auto). reflexivity. }
         rewrite (zsum_ext _ _ (fun _ => 0) t2), zsum_zero.
-        2: { intros jc Hjc. destruct (Z.eqb_spec (fst jc) e); cbn [andb]; auto. exfalso. eapply N2; eauto. }
+        2: { intros [j' c'] Hjc. cbn [fst snd]. assert (j' =? e = false) as -> by (apply Z.eqb_neq; apply (N2 (j', c')); auto). reflexivity. }
         destruct (Z.leb_spec i0 h); destruct (Z.ltb_spec h (i0 + Z.of_nat (length c))); cbn [andb]; lia.
       * rewrite (zsum_ext _ _ (fun _ => 0)), zsum_zero; auto. intros jc _. rewrite andb_false_r. reflexivity.
+Qed.
+
+Lemma jones_model_canon : forall l p, jones_model l = Some p -> canon p.
+Proof.
+  intros l p H. rewrite <- kh_euler_jones in H. unfold kh_euler in H.
+  destruct (kh_gens l); inversion H. apply euler_poly_canon.
+Qed.
+
+(* the identity of the property, for the model: every bigraded complex on the generators of the cube *)
+Theorem euler_identity : forall l gens J i0 tbl,
+  kh_gens l = Some gens -> jones_model l = Some J ->
+  dims_match gens i0 tbl -> (forall jc, In jc tbl -> last_rank (snd jc) = 0) ->
+  euler_of_table (alt_hom (hsign i0) 0) tbl = J.
+Proof.
+  intros l gens J i0 tbl Hg HJ Hd Hl.
+  rewrite (table_euler (hsign i0) tbl Hl), (cube_table_euler gens i0 tbl Hd).
+  pose proof (kh_euler_jones l) as E. unfold kh_euler in E. rewrite Hg, HJ in E. inversion E. reflexivity.
 Qed.
